@@ -63,6 +63,7 @@ pub fn all() -> Vec<CheckDef> {
                 Family { enumerate: None, variant: "", name: "T4-upgrade-racing-cascade", strategy: |_| templates::t4(), cases: |t| t.pick(12_000, 120_000) },
                 Family { enumerate: None, variant: "", name: "T5-install-into-unlinked-node", strategy: |_| templates::t5(), cases: |t| t.pick(12_000, 120_000) },
                 Family { enumerate: None, variant: "", name: "T8-destructor-holding-a-guard", strategy: |_| templates::t8(), cases: |t| t.pick(12_000, 120_000) },
+                Family { enumerate: None, variant: "", name: "T9-move-into-node-dying-by-cascade", strategy: |_| templates::t9(), cases: |t| t.pick(30_000, 300_000) },
             ],
             exec: rcworld::exec,
             rule: "free programs and templates (reader / unlinker / stalled dropper / collector); non-trivial = (a) an object was destructed while another thread was inside a critical section in which it holds at least one snapshot (the O-snap oracle was evaluated against a non-empty holding set of a peer), or (b) collection rounds ran while some object had no definite strong owner left and was protected only by a peer's snapshot; distinct = distinct hash of the case",
@@ -359,7 +360,10 @@ pub fn all() -> Vec<CheckDef> {
         },
         CheckDef {
             id: "C17",
-            families: vec![Family { enumerate: None, variant: "", name: "queue-histories", strategy: |_| queuelist::queue_strategy(), cases: |t| t.pick(60_000, 600_000) }],
+            families: vec![
+                Family { enumerate: None, variant: "", name: "queue-histories", strategy: |_| queuelist::queue_strategy(), cases: |t| t.pick(60_000, 600_000) },
+                Family { enumerate: None, variant: "", name: "Q1-pop-that-keeps-losing-the-head-race", strategy: |_| queuelist::queue_starvation_strategy(), cases: |t| t.pick(6_000, 60_000) },
+            ],
             exec: queuelist::exec_c17,
             rule: "2-4 scheduled threads, <=8 ops each (push of a unique value, try_pop, try_pop_if with a generated threshold on the element's low byte) on the collector's internal queue type, optionally prefilled, with preemption at the queue's loads/CASes (tail lag, head/tail crossing). Oracle: the complete invocation/response history (plus the final drain) must have a linearisation accepted by the sequential FIFO specification with conditional pop (Wing-Gong search, memoised), no value popped twice or invented, pushed = popped + drained. Non-trivial = operations of two threads overlapped and at least one conditional pop was refused; distinct = distinct hash of the case",
             timeout_s: t60,
